@@ -55,9 +55,13 @@ WellScoped == \A t \in DOMAIN Scoped : \A q \in DOMAIN Scoped[t] : \A s \in DOMA
 
 TermOut(t) == [i \in DOMAIN t |-> t[i].e]
 ScopedOut == [t \in DOMAIN Scoped |-> [q \in DOMAIN Scoped[t] |-> [s \in DOMAIN Scoped[t][q].fs |-> <<Scoped[t][q].fs[s].f, IF Scoped[t][q].fs[s].red THEN "reduced" ELSE "full">>]]]
-RECURSIVE FoldLen(_)
-FoldLen(q) == IF q = <<>> THEN 0 ELSE Len(Head(q)) * 3 + FoldLen(Tail(q))
-Hash == FoldLen(terms) + (IF icpt THEN 1 ELSE 0) + Len(terms)
+\* a slice number that spreads the sequences evenly: position-weighted codes of the factors of every term
+FCode(e) == CASE e = "A" -> 1 [] e = "B" -> 2 [] e = "D" -> 4 [] e = "a" -> 8 [] OTHER -> 16
+RECURSIVE TCode(_)
+TCode(t) == IF t = <<>> THEN 0 ELSE FCode(Head(t).e) + TCode(Tail(t))
+RECURSIVE FoldCode(_, _)
+FoldCode(q, w) == IF q = <<>> THEN 0 ELSE w * TCode(Head(q)) + FoldCode(Tail(q), w * 31 % 1009)
+Hash == FoldCode(terms, 1) + (IF icpt THEN 5 ELSE 0) + (IF cluster THEN 3 ELSE 0)
 Out == IOEnv.OUT_FILE
 EmitCase == (Emit /\ Hash % SliceMod = Slice) =>
    CSVWrite("%1$s", <<ToJson([terms |-> [i \in DOMAIN terms |-> TermOut(terms[i])], icpt |-> icpt, cluster |-> cluster,
